@@ -4,6 +4,19 @@ from vf.runner import filler
 
 SEQS = ["ffffffff", "fffffffe", "00000000", "a1b2c3d4"]
 
+# scriptPubKeys whose BYTES are a well-formed destination of another notation: a compressed / uncompressed public key
+# (G), the ASCII of a base58check address, the ASCII of a segwit address.  As scripts they are junk, but legal junk, and
+# a constructor that "resolves destinations" rewrites exactly these.
+SPK_LOOKALIKES = {
+    "pubkey33": bytes.fromhex("0279be667ef9dcbbac55a06295ce870b07029bfcdb2dce28d959f2815b16f81798"),
+    "pubkey65": bytes.fromhex("0479be667ef9dcbbac55a06295ce870b07029bfcdb2dce28d959f2815b16f81798"
+                              "483ada7726a3c4655da4fbfc0e1108a8fd17b448a68554199c47d08ffb10d4b8"),
+    "p2pkh-text": b"1BgGZ9tcN4rm9KBzDn7KprQz87SZ26SAMH",
+    "p2sh-text": b"3J98t1WpEZ73CNmQviecrnyiWrnqRhWNLy",
+    "bech32-text": b"bc1qw508d6qejxtdg4y5r3zarvary0c5xw7kv8f3t4",
+    "bech32m-text": b"bc1p0xlxvlhemja6c4dqv22uapctqupfhlxm9h8z3k2e72q4k9hcz7vqzk5jj0",
+}
+
 
 def make_tx(seed, a, label="t"):
     """a: assignment dict with keys segwit, n_in, n_out, seq0, seqrest, ss0, ssrest, spk0, spkrest, wit0, witrest,
@@ -20,7 +33,10 @@ def make_tx(seed, a, label="t"):
     outs = []
     for i in range(a["n_out"]):
         ln = a["spk0"] if i == 0 else a["spkrest"]
-        outs.append(((a.get("value0", 5000000000) if i == 0 else 1000 + i), f(f"spk{i % 5}", ln)))
+        spk = f(f"spk{i % 5}", ln)
+        if i == 0 and a.get("spk0kind", "filler") != "filler":
+            spk = SPK_LOOKALIKES[a["spk0kind"]]
+        outs.append(((a.get("value0", 5000000000) if i == 0 else 1000 + i), spk))
     wit = None
     if a["segwit"]:
         wit = []
